@@ -329,3 +329,140 @@ Proof.
   rewrite multi_mix_cons, multi_mix_nil_l, Cmul_one_r, Cadd_zero_r, ls_barrier_0.
   destruct (BW m m0 g0). unfold Cscal; cbn [fst snd]. f_equal; ring.
 Qed.
+
+(* ====================================================================================================
+   Hunt round 2 (C15): the code after the repairs (patches 1, 3, 5, 8 of /verif/build/fix2_C15)
+   ==================================================================================================== *)
+
+(* ---------- MultiBWR: every member normalised at its own mass ---------- *)
+Lemma multi_doms_own_nth m q2 m1 m2 l d res k m0 g0 :
+  nth_error res k = Some (m0, g0) ->
+  nth k (multi_doms_own m q2 m1 m2 l d res) (0, 0) = BWR2 m m0 g0 q2 (get_relative_p2 m0 m1 m2) l d.
+Proof.
+  intros H. unfold multi_doms_own.
+  apply nth_error_nth.
+  rewrite (map_nth_error _ _ _ H). reflexivity.
+Qed.
+
+(* the statement of the property for MultiBWR: EVERY member, evaluated at its own mass, is i/(m0_k Gamma0_k) *)
+Theorem multibwr_member_at_own_pole m1 m2 l d res k m0 g0 :
+  nth_error res k = Some (m0, g0) ->
+  (l <= 8)%nat -> 0 < get_relative_p2 m0 m1 m2 -> m0 <> 0 -> g0 <> 0 ->
+  nth k (multi_doms_own m0 (get_relative_p2 m0 m1 m2) m1 m2 l d res) (0, 0) = (0, 1 / (m0 * g0)).
+Proof.
+  intros H HL Hq Hm Hg. rewrite (multi_doms_own_nth _ _ _ _ _ _ _ _ _ _ H).
+  pose proof (bwr_ls2_at_pole m0 g0 (get_relative_p2 m0 m1 m2) [l] d 0 ltac:(cbn; lia) Hq Hm Hg) as P.
+  unfold BWR_LS2 in P. cbn [nth] in P. exact P.
+Qed.
+
+(* every member is the q-based BWR of its own (m0_k, Gamma0_k, q0_k) above threshold *)
+Theorem multibwr_member_is_bwr m q m1 m2 l d res k m0 g0 q0 :
+  nth_error res k = Some (m0, g0) ->
+  (l <= 8)%nat -> 0 < q -> 0 < q0 -> get_relative_p2 m0 m1 m2 = q0 ^ 2 ->
+  nth k (multi_doms_own m (q ^ 2) m1 m2 l d res) (0, 0) = BWR m m0 g0 q q0 l d.
+Proof.
+  intros H HL Hq Hq0 E. rewrite (multi_doms_own_nth _ _ _ _ _ _ _ _ _ _ H), E.
+  apply bwr2_above; assumption.
+Qed.
+
+(* a single member: the repaired model coincides with the old one evaluated with that member's own q02 *)
+Lemma multibwr_own_single m q2 q02 m1 m2 ls d m0 g0 (coeff : list (list C)) i :
+  MultiBWR_own m q2 q02 m1 m2 ls d [(m0, g0)] coeff i =
+  MultiBWR_from (ls_barrier (nth i ls 0%nat) q2 q02 d) (nth i coeff []) (multi_doms m q2 (get_relative_p2 m0 m1 m2) (lmin ls) d [(m0, g0)]).
+Proof. reflexivity. Qed.
+
+(* single S-wave member with coefficient 1, reference mass = its mass: exactly BWR, hence i/(m0 Gamma0) at the pole *)
+Theorem multibwr_own_single_swave_is_bwr m q q0 m1 m2 d m0 g0 :
+  0 < q -> 0 < q0 -> get_relative_p2 (multi_ref_mass [(m0, g0)]) m1 m2 = q0 ^ 2 ->
+  MultiBWR_own m (q ^ 2) (get_relative_p2 (multi_ref_mass [(m0, g0)]) m1 m2) m1 m2 [0%nat] d [(m0, g0)] [[(1, 0)]] 0 = BWR m m0 g0 q q0 0 d.
+Proof.
+  intros Hq Hq0 E. rewrite multibwr_own_single.
+  unfold multi_ref_mass in *. cbn [hd fst] in *. rewrite E.
+  exact (multibwr_single_swave_is_bwr m q q0 d m0 g0 Hq Hq0).
+Qed.
+
+(* linear in the coefficients (same proofs as for the old model: only the list of propagators differs) *)
+Theorem multibwr_own_additive m q2 q02 m1 m2 ls d res ca cb :
+  length ca = length cb ->
+  MultiBWR_own m q2 q02 m1 m2 ls d res [coeff_add ca cb] 0 =
+  Cadd (MultiBWR_own m q2 q02 m1 m2 ls d res [ca] 0) (MultiBWR_own m q2 q02 m1 m2 ls d res [cb] 0).
+Proof.
+  intros H. unfold MultiBWR_own, MultiBWR_from. cbn [nth].
+  rewrite multi_mix_add by assumption. apply Cscal_Cadd.
+Qed.
+Theorem multibwr_own_homogeneous m q2 q02 m1 m2 ls d res k ca :
+  MultiBWR_own m q2 q02 m1 m2 ls d res [map (Cmul k) ca] 0 = Cmul k (MultiBWR_own m q2 q02 m1 m2 ls d res [ca] 0).
+Proof.
+  unfold MultiBWR_own, MultiBWR_from. cbn [nth]. rewrite multi_mix_scal. apply Cscal_Cmul.
+Qed.
+
+(* ---------- has_barrier_factor cannot remove the line shape ---------- *)
+Lemma ls_decay_amp_opt_keeps_line_shape b g R : ls_decay_amp_opt b g R = Cmul g R.
+Proof. reflexivity. Qed.
+Theorem ls_decay_amp_opt_old_keeps_line_shape_refuted :
+  exists g R, ls_decay_amp_opt_old false g R <> Cmul g R.
+Proof.
+  exists (1, 0), (0, 40). unfold ls_decay_amp_opt_old, Cmul; cbn [fst snd].
+  intros H. injection H as H1 H2. lra.
+Qed.
+
+(* ---------- Particle.__call__: q^2 ---------- *)
+(* above threshold the square of the (clamped) momentum IS get_relative_p2: the repair changes nothing there *)
+Lemma call_q2_old_above m m1 m2 : 0 < m -> m1 + m2 <= m -> 0 <= m1 -> 0 <= m2 -> call_q2_old m m1 m2 = call_q2 m m1 m2.
+Proof.
+  intros Hm Ht H1 H2. unfold call_q2_old, call_q2, get_relative_p, get_relative_p2.
+  assert (E : rmax m (m1 + m2) = m) by (rewrite rmax_Rmax; apply Rmax_left; lra).
+  rewrite E.
+  assert (Hp : 0 <= (m - (m1 + m2)) * (m + (m1 + m2)) * (m - (m1 - m2)) * (m + (m1 - m2))).
+  { repeat apply Rmult_le_pos; lra. }
+  unfold Rdiv. rewrite Rpow_mult_distr.
+  replace (sqrt ((m - (m1 + m2)) * (m + (m1 + m2)) * (m - (m1 - m2)) * (m + (m1 - m2))) ^ 2)
+    with ((m - (m1 + m2)) * (m + (m1 + m2)) * (m - (m1 - m2)) * (m + (m1 - m2))).
+  2:{ simpl pow. rewrite Rmult_1_r. symmetry. apply sqrt_sqrt. exact Hp. }
+  rewrite pow_inv. reflexivity.
+Qed.
+(* below threshold the old value is clamped to 0 while the amplitude uses the negative q^2: m0 = 0.1 < 0.1 + 0.1 *)
+Theorem call_q2_old_below_refuted :
+  exists m0 m1 m2, 0 < m0 < m1 + m2 /\ call_q2_old m0 m1 m2 <> call_q2 m0 m1 m2.
+Proof.
+  exists (1 / 10), (1 / 10), (1 / 10). split; [lra|].
+  unfold call_q2_old, call_q2, get_relative_p, get_relative_p2, rmax.
+  intros H.
+  assert (A : (sqrt ((((1 / 10 + (1 / 10 + 1 / 10) + Rabs (1 / 10 - (1 / 10 + 1 / 10))) / 2 - (1 / 10 + 1 / 10)) *
+            ((1 / 10 + (1 / 10 + 1 / 10) + Rabs (1 / 10 - (1 / 10 + 1 / 10))) / 2 + (1 / 10 + 1 / 10)) *
+            ((1 / 10 + (1 / 10 + 1 / 10) + Rabs (1 / 10 - (1 / 10 + 1 / 10))) / 2 - (1 / 10 - 1 / 10)) *
+            ((1 / 10 + (1 / 10 + 1 / 10) + Rabs (1 / 10 - (1 / 10 + 1 / 10))) / 2 + (1 / 10 - 1 / 10)))) /
+            (2 * ((1 / 10 + (1 / 10 + 1 / 10) + Rabs (1 / 10 - (1 / 10 + 1 / 10))) / 2))) ^ 2 >= 0) by interval.
+  rewrite H in A.
+  assert (B : (1 / 10 - (1 / 10 + 1 / 10)) * (1 / 10 + (1 / 10 + 1 / 10)) * (1 / 10 - (1 / 10 - 1 / 10)) * (1 / 10 + (1 / 10 - 1 / 10)) / (2 * (1 / 10)) ^ 2 < 0) by interval.
+  lra.
+Qed.
+(* with m0 below threshold and m above it (q2/q02 < 0) the q^2-based Breit-Wigner stays finite: it is real, 1/(x + m0 |Gamma|) *)
+Lemma bwr2_m0_below_is_real m m0 g0 q2 q02 L d :
+  q2 / q02 < 0 -> snd (BWR2 m m0 g0 q2 q02 L d) = 0.
+Proof.
+  intros Hr. unfold BWR2, Gamma2, Cscal, Csqrt_real; cbn [fst snd].
+  assert (E : rmax 0 (q2 / q02) = 0).
+  { replace (q2 / q02) with (- (- (q2 / q02))) by ring. apply rmax_0_neg. lra. }
+  rewrite E, sqrt_0. unfold Rdiv. rewrite !Rmult_0_r, Ropp_0, Ropp_0. ring.
+Qed.
+
+(* ---------- symbolic denominator with the same d is the reciprocal; with a fixed d = 3 it is not ---------- *)
+Theorem bwr_dom_reciprocal m m0 g0 q q0 L d :
+  (m0 * m0 - m * m) * (m0 * m0 - m * m) + (m0 * Gamma m g0 q q0 L m0 d) * (m0 * Gamma m g0 q q0 L m0 d) <> 0 ->
+  Cmul (BWR m m0 g0 q q0 L d) (BWR_dom m m0 g0 q q0 L d) = (1, 0).
+Proof. intros H. unfold BWR, BWR_dom. apply bw_xy_reciprocal. exact H. Qed.
+Lemma bwr_dom_fixed_d_witness :
+  snd (Cmul (BWR 1 (3 / 2) (1 / 10) (1 / 2) (3 / 4) 1 (3 / 2)) (BWR_dom 1 (3 / 2) (1 / 10) (1 / 2) (3 / 4) 1 3)) < - (1 / 100).
+Proof.
+  cbv [Cmul BWR BWR_dom bw_xy Gamma Bprime bp polyval bprime_table map fold_left fst snd Nat.mul Nat.add].
+  interval with (i_prec 60).
+Qed.
+Theorem bwr_dom_ignoring_d_refuted :
+  exists m m0 g0 q q0 L d, 0 < g0 /\ 0 < q /\ 0 < q0 /\
+    Cmul (BWR m m0 g0 q q0 L d) (BWR_dom m m0 g0 q q0 L 3) <> (1, 0).
+Proof.
+  exists 1, (3 / 2), (1 / 10), (1 / 2), (3 / 4), 1%nat, (3 / 2).
+  split; [lra|]. split; [lra|]. split; [lra|].
+  intros H. pose proof bwr_dom_fixed_d_witness as P. rewrite H in P. cbn [snd] in P. lra.
+Qed.
